@@ -46,27 +46,34 @@ Fixpoint spell (t : ftree) : list sline :=
 Definition spell_seq (ts : list ftree) : list sline := join_blank (map spell ts).
 Definition text_of (ls : list sline) : list str := map render_line ls.
 
-(* the pre-token tree the block tokenizer must return, with the line every block starts on *)
+(* the pre-token tree the block tokenizer must return, with the line every block starts on.
+   md = the Markdown renderer's token set: there a blank line is itself a block (BlankLine) and never makes a list loose *)
 Definition height (t : ftree) : Z := Z.of_nat (length (spell t)).
 
-Fixpoint pre_of (ln : Z) (t : ftree) : pre :=
-  let seq := (fix seq (ln : Z) (ts : list ftree) : list pre :=
-                match ts with
-                | [] => []
-                | t :: r => pre_of ln t :: seq (ln + height t + 1) r
-                end) in
-  match t with
-  | FPara c body => PParagraph ln [c :: body ++ [10]]
-  | FFence ch n content => PCodeFence ln (map render_line content) 0 (repeat ch n) [] []
-  | FQuote ts => PQuote ln (seq ln ts)
-  | FItem mk pad ts =>
-    PList ln [PItem ln (seq ln ts) (1 <? Z.of_nat (length ts)) 0 (Z.of_nat (length (marker_str mk) + pad)) (marker_str mk)]
-  end.
-Fixpoint pre_seq (ln : Z) (ts : list ftree) : list pre :=
-  match ts with
-  | [] => []
-  | t :: r => pre_of ln t :: pre_seq (ln + height t + 1) r
-  end.
+Section Mode.
+  Variable md : bool.
+
+  Definition blank_entry (ln : Z) : list pre := if md then [PBlankLine ln] else [].
+
+  Fixpoint pre_of (ln : Z) (t : ftree) : pre :=
+    let seq := (fix seq (ln : Z) (ts : list ftree) : list pre :=
+                  match ts with
+                  | [] => []
+                  | t :: r => pre_of ln t :: match r with [] => [] | _ => blank_entry (ln + height t) ++ seq (ln + height t + 1) r end
+                  end) in
+    match t with
+    | FPara c body => PParagraph ln [c :: body ++ [10]]
+    | FFence ch n content => PCodeFence ln (map render_line content) 0 (repeat ch n) [] []
+    | FQuote ts => PQuote ln (seq ln ts)
+    | FItem mk pad ts =>
+      PList ln [PItem ln (seq ln ts) (negb md && (1 <? Z.of_nat (length ts))) 0 (Z.of_nat (length (marker_str mk) + pad)) (marker_str mk)]
+    end.
+  Fixpoint pre_seq (ln : Z) (ts : list ftree) : list pre :=
+    match ts with
+    | [] => []
+    | t :: r => pre_of ln t :: match r with [] => [] | _ => blank_entry (ln + height t) ++ pre_seq (ln + height t + 1) r end
+    end.
+End Mode.
 
 (* Paragraph.parse_setext after the block *)
 Fixpoint st_after (st : pstate) (t : ftree) : pstate :=
